@@ -383,7 +383,10 @@ def cmd_replay(path):
     if kind == "script":
         out = units.native_batch([rec["native_task"]])[0]
         print(json.dumps(out, indent=1)[:3000])
-        bad = out["ok"] and out["result"].get("violates")
+        from .native import dec
+        res = dec(out["result"]) if out["ok"] else {}
+        bad = bool(out["ok"] and isinstance(res, dict) and res.get("violates"))
+        print("real code still violates the obligation" if bad else "not reproduced")
         return 1 if bad else 0
     print("replay file carries the failed obligation and the solver's model only (no-failing-input-found):")
     print(json.dumps({k: rec.get(k) for k in ("property", "obligation", "solver_model", "path")}, indent=1)[:4000])
